@@ -19,11 +19,11 @@ import eng_func
 OWNER = {
     "search.topk": "C10", "search.rank": "C10", "search.sound": "C10", "search.text": "C10", "search.uri": "C10",
     "search.active": "C08", "search.asof": "C11", "search.acl": "C12", "search.enforce": "C12", "search.audit": "C12",
-    "search.error": "C12", "search.recall": "C09", "search.pages": "C16", "search.same": "C28",
+    "search.error": "C12", "search.recall": "C09", "search.pages": "C16", "search.same": "C28", "search.distinct": "C28",
     "vsearch.exact": "C13", "vsearch.dim": "C13", "vsearch.error": "C13", "vsearch.same": "C28",
     "other.active": "C08", "other.acl": "C12", "other.enforce": "C12", "other.asof": "C11", "other.error": "C12",
 }
-ALSO = {"search.active": ["C10"], "search.sound": ["C28"], "vsearch.same": ["C13"]}
+ALSO = {"search.active": ["C10"], "search.sound": ["C28"], "vsearch.same": ["C13"], "search.distinct": ["C10"]}
 DEV_OWNER = {"D09_sketch_recall": "C09", "D09_slices_crowd": "C09", "D16_pagination": "C16", "D16_slice_cap": "C16", "D16_candidate_window": "C16"}
 AS_BUILT = eng_core.AS_BUILT + ["D16_pagination", "D09_slices_crowd", "D16_slice_cap", "D16_candidate_window"]
 
@@ -281,6 +281,28 @@ def asof_prose(rng, quick):
     return ops
 
 
+def presize_scenario(rng, quick):
+    """C28 / C40: the log region grows (batch pre-sizing, an oversized pending put) while nothing rewrites the indexes; the
+    committed documents must still be found by a reopened handle and by a read-only one."""
+    docs = make_corpus(rng, 10, long_frac=0.0)
+    for d in docs:
+        d.pop("acl", None)
+    ops = [{"op": "create"}] + docs + [{"op": "commit"}]
+    qs = []
+    qid = 7000
+    for w in range(8):
+        qid += 1
+        qs.append({"op": "search", "toks": ["w%d" % w], "single": "w%d" % w, "top_k": 200, "no_sketch": True, "qid": qid})
+    qs += [{"op": "timeline"}, {"op": "vecset"}]
+    ops += qs + [{"op": "begin_batch", "skip_sync": False, "no_auto": True, "presize": 262144}, {"op": "end_batch"}, {"op": "close"},
+                 {"op": "open"}] + [dict(q) for q in qs] + [{"op": "close"}, {"op": "open_ro"}] + [dict(q) for q in qs] + [{"op": "close"}]
+    # an oversized put left pending (the region grows again), the handle lost: replay must keep every index intact
+    ops += [{"op": "open"}, {"op": "begin_batch", "skip_sync": True, "no_auto": True},
+            {"op": "put", "uri": "mv2://q/huge", "pay": 500, "cls": "bin", "size": 400000, "ts": 9},
+            {"op": "abandon"}, {"op": "open_ro"}] + [dict(q) for q in qs] + [{"op": "close"}, {"op": "open"}] + [dict(q) for q in qs[:8]] + [{"op": "close"}]
+    return ops
+
+
 def pagination_small(rng, quick):
     """C16 where nothing as built excuses a difference: fewer matching documents than the smallest candidate window (20), some
     of them with two snippet slices, timestamps days apart and not in insertion order, every page size from 1 to 10."""
@@ -349,6 +371,7 @@ def engine(tier):
     scs.append({"id": 3, "ops": pagination_small(rng, quick)})
     scs.append({"id": 4, "ops": asof_scenario(rng, quick)})
     scs.append({"id": 5, "ops": asof_prose(rng, quick)})
+    scs.append({"id": 6, "ops": presize_scenario(rng, quick)})
     sizes = [6, 14, 30] if quick else [4, 8, 14, 24, 40, 60, 90, 120] * 3
     for n in sizes:
         scs.append({"id": len(scs) + 1, "ops": scenario(rng, quick, n)})
